@@ -80,8 +80,12 @@ def gen_workload(rng, malformed=False, batch=False, dag=False):
                 node["children"] = [spec["nodes"][k]["name"] for k in kids]
             if nd["conditional"]:
                 node["conditional"] = True
+            elif rng.random() < 0.3:
+                node["conditional"] = False   # spelled out: the loader must read the value, not the key
             if nd["terminal"]:
                 node["terminal"] = True
+            elif rng.random() < 0.3:
+                node["terminal"] = False
             if nd["prob"] != 1000:
                 node["probability"] = nd["prob"] / 1000.0
             nodes.append(node)
